@@ -107,16 +107,29 @@ func (p *pp) handleSpecialValues(
 
 	case redactableStringType:
 		handled = true
+		p.ignoredVerb(verb)
 		defer p.startPreRedactable().restore()
 		p.buf.WriteString(value.String())
 
 	case redactableBytesType:
 		handled = true
+		p.ignoredVerb(verb)
 		defer p.startPreRedactable().restore()
 		p.buf.Write(value.Bytes())
 	}
 
 	return handled
+}
+
+// ignoredVerb is called when an operand is copied as is whatever the
+// verb (a redactable string is not further formattable). A %w on such
+// an operand is still a misuse of %w: like every other misuse (see
+// badVerb) it invalidates what HelperForErrorf captured.
+func (p *pp) ignoredVerb(verb rune) {
+	if verb == 'w' {
+		p.wrappedErr = nil
+		p.wrapErrs = false
+	}
 }
 
 // wrappedValue returns the value enclosed by a Safe() or Unsafe()
